@@ -189,7 +189,8 @@ fn scan_xml(xml: &str, mut joined: Option<&mut String>) -> Result<bool> {
                         }
                         '&' if escape => joined.push_str("&amp;"),
                         '<' if escape => joined.push_str("&lt;"),
-                        '>' if escape => joined.push_str("&gt;"),
+                        // Also in plain text: behind the content of a CDATA section it could complete the marker "]]>"
+                        '>' => joined.push_str("&gt;"),
                         _ => joined.push(c),
                     }
                 }
